@@ -70,6 +70,15 @@ class _VSelector:
                     return events
             if loop.allow_block_on_threads and loop.pending_thread_work():
                 return self._sel.select(0.05)
+            hint = loop.io_expected
+            if hint is not None and hint():
+                loop.real_waits += 1
+                events = self._sel.select(loop.io_grace)
+                if events:
+                    return events
+                loop.real_stalls += 1
+                if loop.real_stalls >= 3:
+                    loop.io_expected = None  # the hint is not borne out by the kernel: stop paying for it
             raise Quiescent(f"loop quiescent at virtual time {loop._vtime:.3f}, iteration {loop.iteration}")
         if timeout > 0:
             hint = loop.io_expected
@@ -83,6 +92,8 @@ class _VSelector:
                     loop._zero_polls = 0
                     return events
                 loop.real_stalls += 1
+                if loop.real_stalls >= 3:
+                    loop.io_expected = None
             elif loop.micro_grace and len(self._sel.get_map()) > 1:
                 # real sockets are registered: loopback delivery is synchronous on an idle kernel, but a deferred softirq
                 # takes a few real milliseconds -> one short real wait before the clock jumps over in-flight bytes
